@@ -13509,6 +13509,19 @@ func containsClosingScriptTag(text string) bool {
 	return false
 }
 
+// This checks the raw text of a template literal for a "\u{...}" escape
+func containsCodePointEscape(raw string) bool {
+	for i := 0; i+2 < len(raw); i++ {
+		if raw[i] == '\\' {
+			if raw[i+1] == 'u' && raw[i+2] == '{' {
+				return true
+			}
+			i++ // Skip over the escaped character (it may be another backslash)
+		}
+	}
+	return false
+}
+
 func (p *parser) isUnsupportedRegularExpression(loc logger.Loc, value string) (pattern string, flags string, isUnsupported bool) {
 	var what string
 	var r logger.Range
@@ -14292,6 +14305,22 @@ func (p *parser) visitExprInOut(expr js_ast.Expr, in exprIn) (js_ast.Expr, exprO
 			} else {
 				for _, part := range e.Parts {
 					if containsClosingScriptTag(part.TailRaw) {
+						shouldLowerTemplateLiteral = true
+						break
+					}
+				}
+			}
+		}
+
+		// Also lower tagged template literals that include "\u{...}" when that
+		// escape is unsupported. Unlike in the cooked text, it can't be replaced
+		// with another escape in the raw text without changing what the tag sees.
+		if !shouldLowerTemplateLiteral && p.options.unsupportedJSFeatures.Has(compat.UnicodeEscapes) && e.TagOrNil.Data != nil {
+			if containsCodePointEscape(e.HeadRaw) {
+				shouldLowerTemplateLiteral = true
+			} else {
+				for _, part := range e.Parts {
+					if containsCodePointEscape(part.TailRaw) {
 						shouldLowerTemplateLiteral = true
 						break
 					}
